@@ -4,7 +4,7 @@ From Coq Require Import List ZArith Bool Lia Arith.
 From DD Require Import Model.Circuit Model.LexerD4 Model.LoadC2d Model.LoadD4 Spec.D4Sem Spec.D4Conform
   Proofs.PassLemmas Proofs.LoadD4Graph Proofs.LoadD4Ops Proofs.LoadD4Fold Proofs.LoadD4Flat Proofs.LoadD4Iso
   Proofs.LoadD4Pass2 Proofs.LoadD4Pass2S Proofs.LoadD4Struct Proofs.LoadD4Pass3 Proofs.LoadD4Free
-  Proofs.LoadD4Parse Proofs.LoadD4Sem Proofs.LoadD4Conf Proofs.LoadD4Det Proofs.LoadD4Vars Proofs.LoadD4Dec.
+  Proofs.LoadD4Parse Proofs.LoadD4Sem Proofs.LoadD4Conf Proofs.LoadD4Det Proofs.LoadD4Vars Proofs.LoadD4Dec Proofs.LoadD4Smooth.
 Import ListNotations.
 Local Open Scope nat_scope.
 
@@ -191,7 +191,7 @@ Lemma wf_det_cert : det_cert C = true.
 Proof. exact (iso_det_cert _ _ _ _ HI wf_det_ok). Qed.
 
 (* decomposability *)
-Lemma wf_vars_inv : exists m, vars_inv m s3.
+Lemma wf_vars2 : all_def g2 /\ dec_ok g2.
 Proof.
   pose proof (rf_rep _ _ _ _ _ _ RF) as HR.
   pose proof (all_def_rep toks n0 n0 b Hconf HR) as A0.
@@ -202,8 +202,12 @@ Proof.
                 (rf_prov1 _ _ _ _ _ _ RF) A0 (rf_alive0 _ _ _ _ _ _ RF)) as A1.
   pose proof (free_dec_ok _ _ _ _ _ (rf_free _ _ _ _ _ _ RF) (rf_feats _ _ _ _ _ _ RF) (rf_ok1 _ _ _ _ _ _ RF)
                 (rf_prov1 _ _ _ _ _ _ RF) A0 D0 (rf_alive0 _ _ _ _ _ _ RF) (seq_NoDup _ 1) Hlits) as D1.
-  pose proof (shrink_all_def _ _ (rf_step2 _ _ _ _ _ _ RF) A1) as A2.
-  pose proof (dec_ok_shrink _ _ (rf_step2 _ _ _ _ _ _ RF) A1 D1) as D2.
+  split; [exact (shrink_all_def _ _ (rf_step2 _ _ _ _ _ _ RF) A1)|exact (dec_ok_shrink _ _ (rf_step2 _ _ _ _ _ _ RF) A1 D1)].
+Qed.
+
+Lemma wf_vars_inv : exists m, vars_inv m s3.
+Proof.
+  destruct wf_vars2 as [A2 D2].
   destruct (pass3_invariant_m rc ord Hord (litP_nz NN) (litP_sym NN) (fun m s => vars_inv m s)
               _ _ _ (rf_ok2 _ _ _ _ _ _ RF) (rf_pass3 _ _ _ _ _ _ RF)) as [m [_ Hm]].
   - intros m Em. split; [exact A2|]. split; [exact D2|]. exact (get_literal_diffs_exact _ _ _ Em).
@@ -213,5 +217,23 @@ Qed.
 
 Lemma wf_decomposable : decomposable C = true.
 Proof. destruct wf_vars_inv as [m [_ [Hd _]]]. exact (iso_decomposable _ _ _ _ HI Hd). Qed.
+
+(* smoothness *)
+Lemma wf_or_nodup : or_nodup g2.
+Proof.
+  apply (or_nodup_shrink _ _ (rf_step2 _ _ _ _ _ _ RF)).
+  apply (or_nodup_free _ _ _ (rf_free _ _ _ _ _ _ RF) (rf_prov1 _ _ _ _ _ _ RF) (rf_ok1 _ _ _ _ _ _ RF)).
+  exact (or_nodup_rep toks n0 n0 b Hconf (rf_rep _ _ _ _ _ _ RF)).
+Qed.
+
+Lemma wf_smooth : smooth C = true.
+Proof.
+  destruct wf_vars2 as [A2 D2].
+  destruct (pass3_cover rc ord Hperm Hndp g2 root1 (so_inv _ _ (rf_step2 _ _ _ _ _ _ RF)) wf_or_nodup
+              (litP_nz NN) (litP_sym NN) (with_g s1 g2) s3 eq_refl (rf_ok2 _ _ _ _ _ _ RF) (rf_root2 _ _ _ _ _ _ RF)
+              A2 D2 (rf_pass3 _ _ _ _ _ _ RF)) as [S [Sr [Scl Ssm]]].
+  apply (iso_smooth _ _ _ _ HI). intros x Hx Hl. apply Ssm; [|exact Hl].
+  exact (iso_closed _ _ _ _ S HI Sr Scl x Hx).
+Qed.
 End Conjuncts.
 End Pipeline.
